@@ -210,6 +210,21 @@ inductive OwnerOpt where
   | name | nameOrNone | explicitOrName | noOption | unknown
 deriving DecidableEq, Repr, Inhabited
 
+/-- C08: how a runtime adapter keeps a declaration slice (inputs / outputs) the controller hands to it:
+    `slices.Clone(x)` ⇒ `.clone` (a private copy); the caller's slice itself ⇒ `.alias` (the adapter's access
+    checks read the CALLER's backing array) -/
+inductive SliceKeep where
+  | clone | alias | unknown
+deriving DecidableEq, Repr, Inhabited
+
+/-- C08: the places where a declaration slice enters an adapter:
+    rruntime `(*Adapter).UpdateInputs` (`adapter.Inputs = …`, also the registration path: NewAdapter calls
+    UpdateInputs(ctrl.Inputs())), rruntime NewAdapter (`Outputs: …ctrl.Outputs()`), qruntime NewAdapter
+    (`Inputs: …settings.Inputs`, `Outputs: …settings.Outputs`) -/
+inductive DeclSite where
+  | rInputs | rOutputs | qInputs | qOutputs
+deriving DecidableEq, Repr, Inhabited
+
 /-- C15: a `state.EventType` constant as tested by `runtime.processEvents` (`e.Type == state.X`) -/
 inductive EvKind where
   | created | updated | destroyed | bootstrapped | noop | errored | unknown
@@ -274,6 +289,26 @@ deriving DecidableEq, Repr, Inhabited
 /-- C11: a `v1alpha1.EventType_*` wire constant -/
 inductive WireEv where
   | created | updated | destroyed | bootstrapped | errored | noop | unknown
+deriving DecidableEq, Repr, Inhabited
+
+/-- C11/C03: a watch method of the client adapter (client/client.go) -/
+inductive WatchCall where
+  | watch | watchKind | watchKindAggregated
+deriving DecidableEq, Repr, Inhabited
+
+/-- C11: what the server's Watch handler looks at to choose between a kind watch and a
+    single-resource watch (server/server.go) -/
+inductive WatchDispatch where
+  | idAbsent   -- `req.Id == nil`: the optional field is not on the wire
+  | idEmpty    -- `req.GetId() == ""`: the VALUE is looked at, an empty ID is taken for "no ID"
+  | unknown
+deriving DecidableEq, Repr, Inhabited
+
+/-- C11: the `Id` field of the WatchRequest literal a client watch method builds -/
+inductive IdField where
+  | pointerId  -- `Id: new(resourcePointer.ID())`: always on the wire, possibly empty
+  | absent     -- no `Id:` in the literal
+  | unknown
 deriving DecidableEq, Repr, Inhabited
 
 /-- qtransform.reconcileRunning: the condition under which the input finalizer is added -/
